@@ -589,7 +589,8 @@ Section Counterexamples.
 
   (* (a) a keyed list whose key field holds a map: a leaf beneath the key field is a leaf of
      the field set and not a key field, removing it changes the member's path element and
-     the member's other leaves are lost (the extraction is not valid either) *)
+     the member's other leaves are lost (and the member of the extraction has another path
+     element than the member of the object, so the selected leaf is not found in it) *)
   Definition k_key := TR None (Atom None None (Some (MapT [] ex_num RUnset))) None.
   Definition k_item : atom :=
     Atom None None (Some (MapT [SField "name" k_key None; SField "vv" ex_num None] empty_tr RUnset)).
@@ -635,11 +636,16 @@ Section Counterexamples.
     unfold k_S. eapply leaf_subset_intro; try (vm_compute; reflexivity).
   Qed.
 
+  (* CHANGED after the F27 repair: the extraction used to be [VList [VMap [("name", VNull)]]]
+     (the walker descended into the selected key field "name" with the selection of the member's
+     level, which names none of the fields beneath "name"); it now descends with the selection
+     beneath "name" and takes "b" alone.  The member of the extraction therefore has another
+     path element ({name:{b:2}}), and the selected leaf is still not found at its path. *)
   Example remove_partition_counterexample :
     In (k_p, RNode ex_num (VInt 3)) (leaf_nodes [] k_tr k_v) /\
     remove [] k_tr k_v k_S = VList [VMap [("name", VMap [("a", VInt 1)]); ("vv", VInt 3)]] /\
     has_leaf [] k_tr (remove [] k_tr k_v k_S) k_p (RNode ex_num (VInt 3)) = false /\
-    extract [] k_tr true k_v k_S = VList [VMap [("name", VNull)]] /\
+    extract [] k_tr true k_v k_S = VList [VMap [("name", VMap [("b", VInt 2)])]] /\
     has_leaf [] k_tr (extract [] k_tr true k_v k_S) [k_kab; PEField "name"; PEField "b"]
       (RNode ex_num (VInt 2)) = false.
   Proof. vm_compute. repeat split; auto. Qed.
